@@ -14,7 +14,10 @@ use crate::peers::{Act, HttpPeer, Script, Seen};
 use crate::runner::{violation, RunCtx, RunReport, Stats, Verdict};
 use crate::tlspeer::{self, ConnectProxy, ProxyLog, TlsLog, TlsPeer};
 
-pub const CELLS: u64 = 4 * 2 * 2 * 2 * 4 * 3 * 7;
+const MATRIX: u64 = 4 * 2 * 2 * 2 * 4 * 3 * 7;
+/// https URL through an https proxy (TLS inside TLS): outer identity x inner identity x flags
+const TUNNEL_CELLS: u64 = 4 * 3 * 2 * 2;
+pub const CELLS: u64 = MATRIX + TUNNEL_CELLS;
 
 #[derive(Clone, Copy, Debug, PartialEq, Eq)]
 enum Chain {
@@ -84,8 +87,122 @@ fn ok_script(body: &str) -> Script {
     s
 }
 
+/// An https URL through an https proxy: two handshakes on one connection, the outer one with the proxy
+/// (authenticated against the *proxy's* name), the inner one through the tunnel with the origin
+/// (authenticated against the *origin's* name).  The fixtures' names do not overlap here: the proxy is
+/// `proxy.test` ("good" names it, "good-wrongname" does not), the origin is `wrong.test` (the other way round).
+fn tunnel_cell(g: &mut G, ctx: &RunCtx, cell: u64) -> RunReport {
+    let mut c = cell;
+    let mut take = |n: u64| {
+        let v = c % n;
+        c /= n;
+        v
+    };
+    let outer = ["good", "good-wrongname", "selfsigned", "expired"][take(4) as usize];
+    let inner = ["good-wrongname", "good", "expired-wrongname"][take(3) as usize];
+    let accept_certs = take(2) == 1;
+    let accept_hosts = take(2) == 1;
+    let _ = g;
+    // (chain valid with the fixtures' CA added, certificate names the host)
+    let outer_id = match outer {
+        "good" => (true, true),
+        "good-wrongname" => (true, false),
+        _ => (false, outer == "expired"),
+    };
+    let inner_id = match inner {
+        "good-wrongname" => (true, true),
+        "good" => (true, false),
+        _ => (false, true),
+    };
+    let ok = |(chain, name): (bool, bool)| accept_certs || (chain && (name || accept_hosts));
+    let want_ok = ok(outer_id) && ok(inner_id);
+    let sim = Sim::new(ctx.sim_config());
+    let seen = Arc::new(Mutex::new(Seen::default()));
+    let outer_log = Arc::new(Mutex::new(TlsLog::default()));
+    let inner_log = Arc::new(Mutex::new(TlsLog::default()));
+    let proxy_log = Arc::new(Mutex::new(ProxyLog::default()));
+    let proxy_ip: IpAddr = "10.0.0.9".parse().unwrap();
+    sim.add_host("proxy.test", vec![proxy_ip]);
+    sim.add_host("wrong.test", vec!["10.9.9.9".parse().unwrap()]);
+    {
+        let seen = seen.clone();
+        let (outer_log, inner_log, proxy_log) = (outer_log.clone(), inner_log.clone(), proxy_log.clone());
+        sim.add_listener(
+            proxy_ip,
+            3129,
+            ConnectBehaviour::Accept { latency_ns: NS_PER_MS },
+            Some(Box::new(move |i| {
+                let seen = seen.clone();
+                let inner_log = inner_log.clone();
+                let mut reply = Script::default();
+                reply.acts.push(Act::Send(b"HTTP/1.1 200 Connection established\r\n\r\n".to_vec()));
+                let proxy = ConnectProxy::new(
+                    reply,
+                    true,
+                    Box::new(move |_auth, conn| {
+                        let http = HttpPeer::new(Arc::new(|_r, _c| ok_script("secret")), seen.clone());
+                        Some(Box::new(TlsPeer::new(inner, Box::new(http), inner_log.clone(), conn)) as Box<dyn attosim::Peer>)
+                    }),
+                    proxy_log.clone(),
+                    i.conn,
+                );
+                Box::new(TlsPeer::new(outer, Box::new(proxy), outer_log.clone(), i.conn))
+            })),
+        );
+    }
+    let out = sim.run(|| {
+        let mut rb = attohttpc::get("https://wrong.test/private")
+            .proxy_settings(attohttpc::ProxySettings::builder().https_proxy(url::Url::parse("https://pu:pp@proxy.test:3129").unwrap()).build())
+            .add_root_certificate(cert_of(tlspeer::CA_PEM))
+            .header("X-Marker", "request-under-test");
+        if accept_certs {
+            rb = rb.danger_accept_invalid_certs(true);
+        }
+        if accept_hosts {
+            rb = rb.danger_accept_invalid_hostnames(true);
+        }
+        match rb.send() {
+            Ok(r) => {
+                let st = r.status().as_u16();
+                match r.bytes() {
+                    Ok(b) => Ok((st, b)),
+                    Err(e) => Err(format!("body:{}", err_kind(&e))),
+                }
+            }
+            Err(e) => Err(err_kind(&e)),
+        }
+    });
+    let mut stats = Stats::default();
+    stats.absorb(&out.history);
+    let tag = format!("HttpsProxyTunnel:outer={}:inner={}:certs={}:hosts={}", outer, inner, accept_certs, accept_hosts);
+    let connect_seen = proxy_log.lock().unwrap().conns.iter().any(|c| !c.head.is_empty());
+    let inner_plain: usize = inner_log.lock().unwrap().sessions.iter().map(|s| s.plaintext_in).sum();
+    let verdict = match &out.result {
+        None => violation("hang", "torn down"),
+        Some(Err(m)) => violation("panic", m.clone()),
+        Some(Ok(res)) => match (want_ok, res) {
+            (true, Ok((200, b))) if b == b"secret" => Verdict::Pass,
+            (true, other) => violation(format!("authenticated-peer-rejected:HttpsProxyTunnel:outer={}:inner={}", outer, inner), format!("expected success ({}), got {:?}", tag, other.as_ref().map(|(s, b)| (*s, b.len())))),
+            (false, Ok((st, _))) => violation(format!("unauthenticated-peer-accepted:HttpsProxyTunnel:outer={}:inner={}", outer, inner), format!("the exchange succeeded with status {} although a peer must be rejected ({})", st, tag)),
+            (false, Err(_)) => {
+                if !ok(outer_id) && connect_seen {
+                    violation("connect-sent-to-unauthenticated-proxy", format!("the CONNECT request (with the proxy credentials) reached a proxy that must be rejected ({})", tag))
+                } else if inner_plain > 0 {
+                    violation("request-sent-to-unauthenticated-peer:HttpsProxyTunnel", format!("{} plaintext bytes reached an origin that must be rejected ({})", inner_plain, tag))
+                } else {
+                    Verdict::Pass
+                }
+            }
+        },
+    };
+    RunReport { verdict, shape: tag.clone(), nontrivial: true, stats, sched_tape: out.sched_tape, describe: if ctx.describe { format!("tunnel cell {}: {} expect_ok={}", cell, tag, want_ok) } else { String::new() } }
+}
+
 pub fn scenario(g: &mut G, ctx: &RunCtx) -> RunReport {
     let cell = g.forced(ctx.index.unwrap_or(0), CELLS);
+    if cell >= MATRIX {
+        return tunnel_cell(g, ctx, cell - MATRIX);
+    }
     let mut c = cell;
     let mut take = |n: u64| {
         let v = c % n;
